@@ -30,6 +30,7 @@ type watchState struct {
 	seed        int64
 	caseJSON    json.RawMessage
 	began       time.Time
+	runBegan    time.Time
 	heapAtBegin int         // what earlier runs left behind (goroutines of torn-down runs keep their buffers) does not count
 	replay      *ReplayFile // replay mode: the file being replayed
 	curPath     string
@@ -44,12 +45,12 @@ func (c *Ctx) Begin(seed int64, cs any) {
 	b := mustJSON(cs)
 	now := time.Now()
 	watch.mu.Lock()
-	if !watch.began.IsZero() {
-		if d := int(now.Sub(watch.began).Seconds()); d > c.Res.Counters["max:run-wall-s"] {
+	if !watch.runBegan.IsZero() {
+		if d := int(now.Sub(watch.runBegan).Seconds()); d > c.Res.Counters["max:run-wall-s"] {
 			c.Res.Counters["max:run-wall-s"] = d
 		}
 	}
-	watch.seed, watch.caseJSON, watch.began, watch.heapAtBegin = seed, b, now, heapMB()
+	watch.seed, watch.caseJSON, watch.began, watch.runBegan, watch.heapAtBegin = seed, b, now, now, heapMB()
 	watch.mu.Unlock()
 	if watch.curPath != "" {
 		rf := ReplayFile{Property: c.Property, Harness: c.Harness, Mode: c.Mode, Tier: c.Tier, RunSeed: seed, Case: b, Race: simrt.RaceBuild}
@@ -64,6 +65,15 @@ func (c *Ctx) Begin(seed int64, cs any) {
 		c.Res.Counters["max:heap-mb"] = h
 	}
 }
+
+// Beat tells the watchdog that the harness is making progress inside a long enumeration (one damaged copy read, one
+// crash image recovered, one faulted execution finished): the no-return limit is about a single call into the code
+// under test that does not come back, not about how many evaluations one case needs on a slow or loaded machine.
+func Beat() { beats.Add(1) }
+
+// beats is only counted here: Beat is called from inside synctest bubbles, where time.Now is the fake clock; the
+// watchdog goroutine (outside every bubble, real time) notes when the counter last moved.
+var beats atomic.Int64
 
 var heapPeakMB atomic.Int64
 
@@ -93,6 +103,8 @@ func (c *Ctx) startWatchdog() {
 	}
 	heapLimit, hang := watchLimits(c.Tier)
 	go func() {
+		var lastBeats int64
+		var lastProgress time.Time
 		for {
 			time.Sleep(50 * time.Millisecond)
 			watch.mu.Lock()
@@ -113,6 +125,12 @@ func (c *Ctx) startWatchdog() {
 			}
 			if h-h0 > heapLimit {
 				c.watchdogFire("runaway-memory", fmt.Sprintf("the heap grew from %d to %d MB of objects during one simulated run (limit: %d MB of growth): a call into the code under test allocates without bound", h0, h, heapLimit), seed, cs, rp)
+			}
+			if b := beats.Load(); b != lastBeats {
+				lastBeats, lastProgress = b, time.Now()
+			}
+			if lastProgress.After(began) {
+				began = lastProgress
 			}
 			if d := time.Since(began); d > hang {
 				c.watchdogFire("no-return", fmt.Sprintf("one simulated run has not finished after %v of wall-clock time: a call into the code under test does not return", d.Round(time.Second)), seed, cs, rp)
